@@ -47,8 +47,11 @@ Record variant := mkvariant {
   beta_project_ok : bool  (* inv_beta_suffstats solves its Newton step (with the installed numpy 2
                              np.linalg.solve rejects the (n,2) right-hand side: every BetaMessage.project raises) *)
 }.
-Definition cur : variant := mkvariant false false false.
-Definition repaired : variant := mkvariant true true true.
+Definition pinned : variant := mkvariant false false false.     (* the pinned tree *)
+Definition repaired : variant := mkvariant true true true.      (* all three proposed fixes applied *)
+(* the code the correspondence check compares with; theorems never mention `cur`, so this is
+   the only line to change when a proposed fix is applied to /repo *)
+Definition cur : variant := pinned.
 
 (* id -1 stands for "a fresh id drawn from AbstractMessage.ids" *)
 Definition fresh_id : Z := (-1)%Z.
